@@ -689,6 +689,9 @@ type jsv struct {
 	isArr bool   // cyc: the ancestor referred to is an array
 	name  string // variable holding the container once built
 	extra bool   // obj: also has an inherited enumerable and an own non-enumerable property (both invisible to JSON.stringify)
+	shape string // obj: "" plain, "args" an arguments object (first argc members are its indices), "arrproto"/"arrsub" an Object whose prototype is an array
+	argc  int    // args: number of arguments passed; members "0".."argc-1" missing from keys were deleted
+	junk  bool   // arr / wstr: the object also carries named properties that JSON.stringify must ignore
 }
 
 func hasCyc(v *jsv) bool {
@@ -791,7 +794,11 @@ func (b *builder) build(v *jsv) string {
 	case "str":
 		return jsStrExpr(v.s)
 	case "wstr":
-		return b.bind(v, "new String("+jsStrExpr(v.s)+")")
+		nm := b.bind(v, "new String("+jsStrExpr(v.s)+")")
+		if v.junk {
+			b.stmts = append(b.stmts, nm+".x=1;"+nm+".length2=2;")
+		}
+		return nm
 	case "wbool":
 		return b.bind(v, "new Boolean("+strconv.FormatBool(v.b)+")")
 	case "date":
@@ -816,11 +823,50 @@ func (b *builder) build(v *jsv) string {
 			b.stmts = append(b.stmts, fmt.Sprintf("%s[%d]=%s;", name, i, e))
 		}
 		b.stmts = append(b.stmts, fmt.Sprintf("%s.length=%d;", name, len(v.items)))
+		if v.junk {
+			b.stmts = append(b.stmts, name+".foo=1;"+name+"[\"-1\"]=2;"+name+"[\"01\"]=3;")
+		}
 		return name
 	case "obj":
 		name := fmt.Sprintf("c%d", *b.n)
 		*b.n++
-		if v.extra {
+		if v.shape == "args" {
+			// the indices present among the keys are passed as arguments, the others are deleted afterwards
+			exprs := make([]string, v.argc)
+			present := make([]bool, v.argc)
+			var rest []int
+			for i, x := range v.items {
+				ks := string(utf16.Decode(v.keys[i]))
+				if n, err := strconv.Atoi(ks); err == nil && n >= 0 && n < v.argc && strconv.Itoa(n) == ks && !present[n] {
+					exprs[n] = b.build(x)
+					present[n] = true
+				} else {
+					rest = append(rest, i)
+				}
+			}
+			for i := range exprs {
+				if !present[i] {
+					exprs[i] = "0"
+				}
+			}
+			b.stmts = append(b.stmts, "var "+name+"=(function(){return arguments})("+strings.Join(exprs, ",")+");")
+			for i := range exprs {
+				if !present[i] {
+					b.stmts = append(b.stmts, fmt.Sprintf("delete %s[%d];", name, i))
+				}
+			}
+			v.name = name
+			for _, i := range rest {
+				e := b.build(v.items[i])
+				b.stmts = append(b.stmts, fmt.Sprintf("%s[%s]=%s;", name, jsStrExpr(v.keys[i]), e))
+			}
+			return name
+		}
+		if v.shape == "arrproto" {
+			b.stmts = append(b.stmts, "var "+name+"=Object.create([9,8,7]);")
+		} else if v.shape == "arrsub" {
+			b.stmts = append(b.stmts, "var "+name+"=new (function(){var A=function(){};A.prototype=[5,6];return A}())();")
+		} else if v.extra {
 			b.stmts = append(b.stmts, "var "+name+"=Object.create({\"inh!\":1});Object.defineProperty("+name+",\"hid!\",{value:2,enumerable:false});")
 		} else {
 			b.stmts = append(b.stmts, "var "+name+"={};")
@@ -1205,6 +1251,165 @@ func (g *gen) holeyValue(depth int) *jsv {
 	return v
 }
 
+// array-like values that are not arrays, and arrays carrying named properties: [[Class]] decides, not shape
+func (g *gen) arrayLike(depth int) *jsv {
+	r := g.r
+	leaf := func() *jsv {
+		switch r.Intn(8) {
+		case 0, 1:
+			return &jsv{kind: "undef"}
+		case 2:
+			return &jsv{kind: "fun"}
+		case 3:
+			return &jsv{kind: "null"}
+		case 4:
+			return &jsv{kind: "str", s: g.str(false)}
+		case 5:
+			return &jsv{kind: "wstr", s: ascii(Pick(r, []string{"", "ab", "0"})), junk: true}
+		default:
+			return &jsv{kind: "num", f: float64(r.Intn(50))}
+		}
+	}
+	child := func() *jsv {
+		if depth > 0 && r.Intn(3) == 0 {
+			return g.arrayLike(depth - 1)
+		}
+		return leaf()
+	}
+	switch r.Intn(6) {
+	case 0, 1, 2: // arguments: some indices deleted, extra named properties
+		n := r.Intn(5)
+		v := &jsv{kind: "obj", shape: "args", argc: n}
+		for i := 0; i < n; i++ {
+			if r.Intn(5) == 0 {
+				continue // deleted
+			}
+			v.keys = append(v.keys, ascii(strconv.Itoa(i)))
+			v.items = append(v.items, child())
+		}
+		for _, k := range []string{"x", "len", "-1"} {
+			if r.Intn(4) == 0 {
+				v.keys = append(v.keys, ascii(k))
+				v.items = append(v.items, child())
+			}
+		}
+		return v
+	case 3: // an object with length and index members, plain or with an array as prototype
+		v := &jsv{kind: "obj", shape: Pick(r, []string{"", "arrproto", "arrsub", ""})}
+		n := r.Intn(4)
+		if r.Intn(2) == 0 {
+			v.keys = append(v.keys, ascii("length"))
+			v.items = append(v.items, &jsv{kind: "num", f: float64(n)})
+		}
+		for i := 0; i < n; i++ {
+			v.keys = append(v.keys, ascii(strconv.Itoa(i)))
+			v.items = append(v.items, child())
+		}
+		if r.Intn(2) == 0 && len(v.keys) > 0 && string(utf16.Decode(v.keys[0])) != "length" {
+			v.keys = append(v.keys, ascii("length"))
+			v.items = append(v.items, &jsv{kind: "num", f: float64(n)})
+		}
+		return v
+	case 4: // a real array that also carries named properties
+		v := &jsv{kind: "arr", junk: true}
+		for i := r.Intn(4); i > 0; i-- {
+			v.items = append(v.items, child())
+		}
+		return v
+	default:
+		v := &jsv{kind: "arr"}
+		if depth <= 0 {
+			v.items = []*jsv{leaf()}
+			return v
+		}
+		for i := 1 + r.Intn(3); i > 0; i-- {
+			v.items = append(v.items, g.arrayLike(depth-1))
+		}
+		return v
+	}
+}
+
+// array replacers whose elements are of every type, over objects whose keys come from the same small set
+func (g *gen) casePlist() {
+	r := g.r
+	names := []string{"a", "b", "c", "1", "2", "", "10", "-1"}
+	var mk func(d int) *jsv
+	mk = func(d int) *jsv {
+		v := &jsv{kind: "obj"}
+		for _, k := range names {
+			if r.Intn(2) == 0 {
+				continue
+			}
+			v.keys = append(v.keys, ascii(k))
+			switch {
+			case d > 0 && r.Intn(4) == 0:
+				v.items = append(v.items, mk(d-1))
+			case d > 0 && r.Intn(6) == 0:
+				v.items = append(v.items, arr(mk(d-1), num(1)))
+			default:
+				v.items = append(v.items, num(float64(r.Intn(9))))
+			}
+		}
+		return v
+	}
+	v := mk(2)
+	n := 1 + r.Intn(7)
+	js := make([]string, n)
+	cq := make([]string, n)
+	for i := range js {
+		nm := Pick(r, names)
+		num, isNum := strconv.Atoi(nm)
+		switch r.Intn(9) {
+		case 0, 1:
+			js[i], cq[i] = jsStrExpr(ascii(nm)), "(PStr "+Cstr(nm)+")"
+		case 2:
+			js[i], cq[i] = Pick(r, []string{"new String(", "Object("})+jsStrExpr(ascii(nm))+")", "(PWStr "+Cstr(nm)+")"
+		case 3: // wrapper objects made by map(Object)
+			j := r.Intn(3)
+			js[i], cq[i] = "[\"a\",\"b\",\"1\"].map(Object)["+strconv.Itoa(j)+"]", "(PWStr "+Cstr([]string{"a", "b", "1"}[j])+")"
+		case 4, 5:
+			if isNum == nil {
+				if r.Intn(2) == 0 {
+					js[i], cq[i] = strconv.Itoa(num), "(PNum "+Cz(int64(num))+")"
+				} else {
+					js[i], cq[i] = Pick(r, []string{"new Number(", "Object("})+strconv.Itoa(num)+")", "(PWNum "+Cz(int64(num))+")"
+				}
+			} else {
+				js[i], cq[i] = jsStrExpr(ascii(nm)), "(PStr "+Cstr(nm)+")"
+			}
+		default:
+			js[i], cq[i] = Pick(r, []string{"true", "false", "null", "undefined", "({toString:function(){return \"a\"}})", "[\"a\"]", "[1]", "function(){}", "new Boolean(true)", "new Date(0)", "/a/", "({valueOf:function(){return 1}})", "Math"}), "PJunk"
+		}
+	}
+	spJS, spCoq := "undefined", "SNone"
+	if r.Intn(4) == 0 {
+		spJS, spCoq = g.space()
+	}
+	g.caseStringify(v, "["+strings.Join(js, ",")+"]", "(RList "+Clist(cq)+")", spJS, spCoq, "stringify-plist")
+}
+
+// a valid text followed or preceded by one token of every class: only JSON white space may stand there
+func (g *gen) sweepAround() {
+	r := g.r
+	bases := []string{`[1]`, `{"a":1}`, `[]`, `{}`, `1`, `"s"`, `null`, `true`, `[[1]]`, `{"a":[]}`, `-0.5e1`, `[{"b":null}]`}
+	toks := []string{"]", "}", "[", "{", ",", ":", "\"", "\"\"", "null", "true", "false", "0", "1", "-", ".", "e", "+", "[]", "{}", "]]", "}}",
+		" ", "\t", "\n", "\r", "\v", "\f", "\u00a0", "\ufeff", "\u2028", "\u2029", "\u0000", "/", "//", "x", "\\", "'"}
+	for _, b := range bases {
+		for _, t := range toks {
+			gap := Pick(r, []string{"", "", " ", "\n", "\t\r"})
+			if r.Intn(2) == 0 {
+				g.caseParse(ascii(b+gap+t), "parse-trailing")
+			}
+			if r.Intn(5) == 0 {
+				g.caseParse(ascii(t+gap+b), "parse-leading")
+			}
+			if r.Intn(12) == 0 {
+				g.caseParse(ascii(b+gap+t+gap), "parse-trailing")
+			}
+		}
+	}
+}
+
 // Go-side marshalling of a value must give the text JSON.stringify gives for it in the script.
 // setup/teardown run before/after (prototype overrides must be in force during both).
 func (g *gen) caseAgree(setup, expr, teardown string) {
@@ -1427,6 +1632,7 @@ func runC11(env *Env) {
 	g.caseRevDel(4)
 	g.caseStringify(num(1152921504606846976), "undefined", "RNone", "undefined", "SNone", "pinned")
 	g.sweepSpace()
+	g.sweepAround()
 	g.sweepClasses()
 
 	for env.Count() < env.N {
@@ -1479,11 +1685,31 @@ func runC11(env *Env) {
 				spJS, spCoq = g.space()
 			}
 			g.caseStringify(v, replacers[id], fmt.Sprintf("(RFun %d)", id), spJS, spCoq, "stringify-holes")
-		case k < 55:
+		case k < 57:
+			if r.Intn(4) > 0 { // array-like values that are not arrays
+				v := g.arrayLike(1 + r.Intn(2))
+				if r.Intn(4) == 0 {
+					g.caseMarshal(v)
+					continue
+				}
+				repJS, repCoq := "undefined", "RNone"
+				if r.Intn(2) == 0 {
+					id := Pick(r, []int{0, 5, 6, 10, 13, 2, 8, 1, 11})
+					repJS, repCoq = replacers[id], fmt.Sprintf("(RFun %d)", id)
+				}
+				spJS, spCoq := "undefined", "SNone"
+				if r.Intn(4) == 0 {
+					spJS, spCoq = g.space()
+				}
+				g.caseStringify(v, repJS, repCoq, spJS, spCoq, "stringify-arraylike")
+				continue
+			}
 			t := g.jsonText(1+r.Intn(3), topt{intOnly: true})
 			if !strings.Contains(string(utf16.Decode(t)), "-0") {
 				g.caseAgreeExport(t)
 			}
+		case k < 59:
+			g.casePlist()
 		case k < 64: // DAG-shaped values: objects of every kind used two or three times at different depths
 			o := sopt{cyc: 0.25, share: 0.3}
 			var v *jsv
